@@ -2,6 +2,7 @@
 import itertools
 import json
 import os
+import shutil
 import subprocess
 import sys
 from types import SimpleNamespace
@@ -18,7 +19,7 @@ CPU_CONFIGS = {'default': '', 'no-avx512': AVX512, 'no-avx512-avx2': AVX512 + ' 
 def list_record(inp):
     from gambit.query import get_result_item, QueryParams, QueryInput
     w = World(inp['parent'], inp['thr'], gt=inp['gt'])
-    r = dict(parent=inp['parent'], thr=inp['thr'], gt=inp['gt'], d=inp['d'], N=inp['N'], cfg=inp.get('cfg', 'default'),
+    r = dict(op='item', parent=inp['parent'], thr=inp['thr'], gt=inp['gt'], d=inp['d'], N=inp['N'], cfg=inp.get('cfg', 'default'),
              ok=False, err='', list=[], closest_g=0)
     try:
         db = SimpleNamespace(genomes=w.genomes)
@@ -132,6 +133,106 @@ class TiesLong(Fam):
                 yield dict(parent=parent, thr=thr, gt=gt, d=d, N=N, strict=(i % 5 == 0))
 
 
+class DbLayouts(Fam):
+    """The list as `query()` produces it against real databases: every placement of unused signatures (in front of, behind, between
+    the used ones), permuted signature order, chunk sizes, list lengths.  TLC recomputes the distance vector from the sequences."""
+    name = 'database-layouts'
+    exhaustive = False
+    procs = 0
+    rule = ('tiny database (9 genomes incl. identical ones) written with the signature file in identity / reversed / rotated / shuffled order and '
+            'unused signatures in front, behind, both, in the middle or absent (20 layouts) x 4 probes x chunk sizes {none,1,2,4,1000} x N in {1,3,n+2}: '
+            'one record per (layout, probe) holding all runs; TLC recomputes the distances from the nucleotide sequences')
+
+    def inputs(self, ctx):
+        import random
+        from .. import world as W
+        w = W.default_world(ctx.seed)
+        n = len(w['genomes'])
+        rng = random.Random(ctx.seed + 4)
+        orders = dict(identity=list(range(n)), reversed=list(range(n))[::-1], rotated=list(range(3, n)) + [0, 1, 2], shuffled=rng.sample(range(n), n))
+        extras = dict(none=[], front=[0], back=[n], both=[0, n + 1], middle=[4])
+        probes = W.query_pool(w, seed=ctx.seed + 5)
+        for on, order in orders.items():
+            for en, pos in extras.items():
+                yield dict(world=w, order=order, extra=[dict(id=f'unused_{i}', contigs=[W.rand_seq(rng, 150)], pos=p) for i, p in enumerate(pos)],
+                           probes=[p['contigs'] for p in probes[:4 if ctx.tier == 'quick' else len(probes)]], layout=f'{on}/{en}')
+
+    def execute(self, inp):
+        raise NotImplementedError        # executed in bulk, see db_layout_records
+
+    def corrupt(self, rec):
+        run = rec['runs'][-1]
+        if len(run['list']) >= 2:
+            run['list'][0], run['list'][1] = run['list'][1], run['list'][0]
+            run['closest_g'] = run['list'][0]['g']
+        else:
+            run['list'] = []
+        return rec
+
+    def nontrivial(self, inp, rec):
+        return core.short_hash([inp['layout'], rec['probe']])
+
+    def describe(self, inp, rec):
+        return f"layout={inp['layout']} probe#{rec['pi']} runs={[(r['chunk'], r['N'], [x['g'] for x in r['list']]) for r in rec['runs']]}"[:400]
+
+
+def db_layout_records(inp, tmp):
+    from gambit.db import ReferenceDatabase
+    from gambit.kmers import KmerSpec
+    from gambit.query import query, QueryParams
+    from gambit.sigs import SignatureArray
+    from ..enc import blist, f32_bits
+    from .. import world as W
+    w = inp['world']
+    d = os.path.join(tmp, 'db_' + core.short_hash([inp['order'], [e['pos'] for e in inp['extra']]]))
+    W.build_db(d, w, sig_order=inp['order'], extra_sigs=inp['extra'])
+    # reference order = order of db.genomes = order of the genomes' signatures in the signature file (unused signatures skipped)
+    ordered = [w['genomes'][i] for i in inp['order']]
+    dbt = W.world_for_tlc(dict(w, genomes=ordered))
+    gidx = {g['key']: i + 1 for i, g in enumerate(ordered)}
+    n = len(w['genomes'])
+    recs = []
+    db = ReferenceDatabase.load_from_dir(d)
+    try:
+        ks = KmerSpec(*w['kspec'])
+        for pi, contigs in enumerate(inp['probes']):
+            rec = dict(op='db', db=dbt, probe=[blist(c.encode()) for c in contigs], pi=pi, layout=inp['layout'], runs=[])
+            sigs = SignatureArray([W.real_signature(w['kspec'], contigs)], ks)
+            for chunk in (None, 1, 2, 4, 1000):
+                for N in (1, 3, n + 2):
+                    run = dict(chunk=-1 if chunk is None else chunk, N=N, ok=False, err='', list=[], closest_g=0)
+                    try:
+                        res = query(db, sigs, QueryParams(report_closest=N, chunksize=chunk))
+                        it = res.items[0]
+                        run['list'] = [dict(g=gidx[m.genome.key], d=f32_bits(m.distance), mt=0 if m.matched_taxon is None else int(m.matched_taxon.key[3:]))
+                                       for m in it.closest_genomes]
+                        run['closest_g'] = gidx[it.classifier_result.closest_match.genome.key]
+                        run['ok'] = True
+                    except Exception as e:
+                        run['err'] = f'{type(e).__name__}: {e}'[:120]
+                    rec['runs'].append(run)
+            recs.append(rec)
+    finally:
+        db.session.close() if hasattr(db, 'session') else None
+        shutil.rmtree(d, ignore_errors=True)
+    return recs
+
+
+def run_db_layouts(ctx):
+    fam = DbLayouts()
+    tmp = tlc.mktmp('c09-')
+    try:
+        flat_in, flat_rec = [], []
+        for inp in fam.inputs(ctx):
+            for rec in db_layout_records(inp, tmp):
+                flat_in.append(dict(layout=inp['layout'], pi=rec['pi']))
+                flat_rec.append(rec)
+        fam.execute = lambda i, _m={core.canon(a): b for a, b in zip(flat_in, flat_rec)}: _m[core.canon(i)]
+        core.run_family(ctx, fam, inputs=flat_in)
+    finally:
+        shutil.rmtree(tmp, ignore_errors=True)
+
+
 FAMILIES = [SmallExhaustive, TiesLong]
 
 
@@ -163,12 +264,15 @@ def run(ctx):
         flat_rec = [r for rr in recs for r in rr]
         f2.execute = lambda inp, _m=dict(zip(map(core.canon, flat_in), flat_rec)): _m[core.canon(inp)]
         core.run_family(ctx, f2, inputs=flat_in)
+    run_db_layouts(ctx)
     ctx.assumptions += ['only the instruction sets of this CPU can be toggled (NPY_DISABLE_CPU_FEATURES)',
                         'thread count and chunk size act before get_result_item (distance matrix); their effect on the list is '
-                        'covered end-to-end by the C08 check']
+                        'covered by the database-layouts family (chunk size) and end-to-end by the C08 check']
 
 
 def replay(ctx, scen):
+    if scen.get('family') == 'database-layouts':
+        return core.RERUN
     inp = scen['inputs']
     cfg = inp.get('cfg', 'default')
     rec = run_in_subprocess([inp], cfg)[0]
